@@ -1,5 +1,10 @@
 """C07 determinant and inverse.  Case: (7 op ty (n0 n1) rows cols (x ...) (pr pc))
-   op 1 = determinant, 2 = inverse; ty 0 = Rat (entries (num den)), 1 = Fp (residues mod 2^31-1);
+   op 1 = determinant, 2 = inverse, 3 = f64 determinant + inverse presence on integer entries in
+   -3..3 (the float result must be the exact integer determinant: exactly 0.0 when singular);
+   ty 0 = Rat (entries (num den)), 1 = Fp (residues mod 2^31-1), 2 = Wrapping<i64> (a ring that
+   is NOT a field: only + - * may be used for the determinant), 3 = Trace<Rat> (dual numbers,
+   entries ((num den) (num den)) = number and derivative; == compares numbers only, so a
+   zero-valued entry with a derivative must not be skipped);
    n0 n1 = dimension names of the tensor forms; (pr pc) = position of the hidden row / column of
    the harness' masked view.  Result: (matrix-route tensor-route), each absent `()` or present
    with the exact value / the exact inverse (tensor route: with its shape and names).
@@ -18,7 +23,11 @@ ASSUMPTIONS = [
 
 
 def num(ty, v):
-    """v: int or (n, d)"""
+    """v: int or (n, d); ty 3: v = (number, derivative), each int or (n, d)"""
+    if ty == 2:
+        return v
+    if ty == 3:
+        return [num(0, v[0]), num(0, v[1])]
     if ty == 0:
         if isinstance(v, tuple):
             return [v[0], v[1]]
@@ -145,6 +154,75 @@ def _gen(tier, rng):
             pad = pads(n, n)
             for op in (1, 2):
                 yield case(op, ty, names, n, n, vals, pad)
+    # ---- Wrapping<i64>: a ring without exact division (sizes 1..6; small, large and wrapping values)
+    for n, count in ({1: 10, 2: 60, 3: 120, 4: 200, 5: 120, 6: 30} if quick else {1: 30, 2: 300, 3: 600, 4: 1000, 5: 600, 6: 150}).items():
+        for _ in range(count):
+            kind = rng.randrange(4)
+            if kind == 0:
+                vals = [rng.randrange(-3, 4) for _ in range(n * n)]
+            elif kind == 1:
+                vals = [rng.randrange(-9, 10) for _ in range(n * n)]
+            elif kind == 2:
+                vals = [rng.randrange(-10 ** 6, 10 ** 6) for _ in range(n * n)]
+            else:
+                vals = [rng.choice([rng.randrange(-2 ** 63, 2 ** 63), 2 ** 62, -2 ** 63, 2 ** 63 - 1, 3, -1]) for _ in range(n * n)]
+            names = rand_names(rng)
+            pad = pads(n, n)
+            for op in (1, 2):
+                yield case(op, 2, names, n, n, vals, pad)
+    # ---- Trace<Rat>: derivative of the determinant / inverse; zero-valued entries carrying a
+    #      derivative (all 2x2 over {0,1,2} with the variable in every position; random 2..5)
+    for vals in itertools.product((0, 1, 2), repeat=4):
+        for var in range(4):
+            tv = [(v, 1 if k == var else 0) for k, v in enumerate(vals)]
+            for op in (1, 2):
+                yield case(op, 3, (0, 1), 2, 2, tv, pads(2, 2))
+    for n, count in ({1: 10, 2: 40, 3: 150, 4: 120, 5: 30} if quick else {1: 30, 2: 200, 3: 800, 4: 600, 5: 150}).items():
+        for _ in range(count):
+            style = rng.randrange(3)
+            tv = []
+            var = rng.randrange(n * n)
+            for k in range(n * n):
+                v = rng.choice([0, 0, 1, -1, 2, 3, (1, 2)])
+                if style == 0:
+                    d = 1 if k == var else 0
+                elif style == 1:
+                    d = rng.choice([0, 1, -1, 2])
+                else:
+                    d = 1 if v == 0 else 0
+                tv.append((v, d))
+            names = rand_names(rng)
+            pad = pads(n, n)
+            for op in (1, 2):
+                yield case(op, 3, names, n, n, tv, pad)
+    # ---- f64 on small integers (op 3): singular families and random, sizes 1..6, a few non-square
+    for n in range(1, 7):
+        for _ in range((25 if n < 6 else 8) if quick else 150):
+            m = [[rng.randrange(-3, 4) for _ in range(n)] for _ in range(n)]
+            fam = rng.randrange(6)
+            if n >= 2 and fam < 4:
+                a, b = rng.sample(range(n), 2)
+                if fam == 0:
+                    m[a] = list(m[b])
+                elif fam == 1:
+                    for r in m:
+                        r[a] = r[b]
+                elif fam == 2:
+                    m[a] = [-x for x in m[b]]
+                else:
+                    u = [rng.randrange(-1, 2) for _ in range(n)]
+                    v = [rng.randrange(-1, 2) for _ in range(n)]
+                    m = [[u[i] * v[j] for j in range(n)] for i in range(n)]
+            elif n >= 3 and fam == 4:
+                # one row = sum / difference of two others (entries stay within -3..3 by clipping the sources)
+                a, b, c = rng.sample(range(n), 3)
+                m[b] = [rng.randrange(-1, 2) for _ in range(n)]
+                m[c] = [rng.randrange(-1, 2) for _ in range(n)]
+                sgn = rng.choice([1, -1])
+                m[a] = [m[b][j] + sgn * m[c][j] for j in range(n)]
+            yield sx([7, 3, 0, list(rand_names(rng)), n, n, [x for r in m for x in r], list(pads(n, n))])
+    for (r, c) in [(2, 3), (3, 2), (4, 5), (1, 6)]:
+        yield sx([7, 3, 0, [0, 1], r, c, [rng.randrange(-3, 4) for _ in range(r * c)], list(pads(r, c))])
     # ---- non-square shapes (all r != c up to 5, plus a few larger)
     shapes = [(r, c) for r in range(1, 6) for c in range(1, 6) if r != c] + [(1, 7), (7, 1), (6, 5), (5, 6), (2, 8)]
     for (r, c) in shapes:
